@@ -373,9 +373,18 @@ class LinearLeastSquares(App):
             else:
                 A = linop.Vstack([A, self.G])
                 proxf1c = prox.L2Reg(self.y.shape, 1, y=-self.y)
-                proxf2c = prox.Conj(proxg)
+                if self.lamda > 0:
+                    if self.proxg is None:
+                        proxf2c = prox.Conj(prox.NoOp(self.G.oshape))
+                    else:
+                        proxf2c = prox.Conj(self.proxg)
+
+                    proxg = prox.L2Reg(self.x.shape, self.lamda, y=self.z)
+                else:
+                    proxf2c = prox.Conj(proxg)
+                    proxg = prox.NoOp(self.x.shape)
+
                 proxfc = prox.Stack([proxf1c, proxf2c])
-                proxg = prox.NoOp(self.x.shape)
                 gamma_dual = 0
 
         if self.tau is None:
